@@ -48,7 +48,7 @@ ENTRIES = {
     "transition_scale": ["extra_axis", "wrong_length", "vector_for_scalar", "length_one", "generic_shape"],
     "is_exact": ["int_flags", "float_flags", "wrong_length", "wrong_leaf_shape", "tree_structure", "extra_coefficient", "generic_shape"],
     "tcoeffs": ["array_instead_of_list", "ragged_leaves", "not_iterable"],
-    "tcoeffs_std": ["tree_structure_same_size", "wrong_length", "vector_for_scalar", "extra_axis", "generic_shape"],
+    "tcoeffs_std": ["tree_structure_same_size", "wrong_length", "vector_for_scalar", "extra_axis", "generic_shape", "leaf_shape_permuted"],
     "loss_std": ["fewer_times", "extra_axis", "wrong_dim", "scalar", "tree_structure", "terminal_wrong_shape", "generic_shape", "generic_shape_terminal"],
     "plain_function": ["ts0", "ts1", "residual_gets_ode", "ts0_gets_residual", "jetexpand", "prior_exponential", "posterior_is_marginal", "matfree_residual"],
     "lift": ["negative", "too_large", "non_int"],
@@ -102,6 +102,10 @@ def pinned_cases(ctx):
             rank = (h >> 16) % 4
             case["shape"] = [sizes[(h >> (20 + 4 * k)) % len(sizes)] for k in range(rank)]
         out.append(("sweep", case))
+        if ctx.tier == "quick" and o == "leaf_shape_permuted":
+            for w2, v2 in ((0, 0), (0, 1), (1, 0), (1, 1)):
+                if (w2, v2) != (case["which"], case["variant"]):
+                    out.append(("sweep", {**case, "which": w2, "variant": v2}))
         if ctx.tier == "quick" and e == "error_shape":
             # few triples, cheap: every sub-variant (incl. the scalar-state one) on every run
             for v2 in range(3):
@@ -370,10 +374,26 @@ def check_case(case):
             k = case["variant"] % n
             bad = [jnp.ones(tuple(case["shape"])) * 0.1 if i == k else g for i, g in enumerate(good)]
             generic = ("tcoeffs_std", tuple(case["shape"]))
+        elif op == "leaf_shape_permuted":
+            # matrix-valued / dict-valued state: same tree structure, same rank per leaf, same total size - but other leaf shapes
+            skip = "isotropic standard deviations are scalars per coefficient" if fact == "isotropic" else None
+            if case["variant"] % 2 == 0:
+                u0 = jnp.arange(1.0, 7.0).reshape(2, 3) / 6.0
+                wrong = lambda g: jnp.ones((3, 2)) * 0.1  # noqa: E731
+            else:
+                u0 = {"a": jnp.asarray([0.5, 1.0]), "b": jnp.asarray([0.25, 0.5, 0.75])}
+                wrong = lambda g: {"a": jnp.ones((3,)) * 0.1, "b": jnp.ones((2,)) * 0.1}  # noqa: E731
+            vf = pd.ode(lambda y, /, *, t: jax.tree.map(lambda x: -0.5 * x, y), jacobian=pd.jacobian_materialize())
+            tcoeffs = list(pd.jetexpand_ode_padded_scan(num=n - 1)(vf, (u0,), t=0.0)[0])
+            good = [jax.tree.map(lambda x: jnp.ones_like(x) * 0.1, u0) for _ in range(n)]
+            k = case["which"] % n
+            # the whole container consistently permuted (which even), or one coefficient only (which odd)
+            bad = [wrong(g) if (i == k or case["which"] % 2 == 0) else g for i, g in enumerate(good)]
+            broadcastable = True
         else:
             bad = [g[..., None] for g in good] if fact != "isotropic" else [g[None] for g in good]
             broadcastable = True
-        if fact == "dense" and case["which"] % 2 == 1:
+        if fact == "dense" and case["which"] % 2 == 1 and op != "leaf_shape_permuted":
             lin = pd.ode_autonomous_order_arbitrary(lambda *a: -a[-1], num_tcoeffs_in_args=n, jacobian=pd.jacobian_materialize())
             build = lambda sd: ssm.prior_exponential_diffuse(lin, tcoeffs, sd)  # noqa: E731
             res.label("ctor:exponential_diffuse")
